@@ -133,18 +133,19 @@ def read_text(F, content, io, *extra):
     try:
         path = os.path.join(d, "in.dat")
         with open(path, "wb") as fh:
-            fh.write(content.encode(io["enc"]))
+            fh.write(content if isinstance(content, bytes) else content.encode(io["enc"]))
         return F.read(path, *extra)
     finally:
         shutil.rmtree(d, ignore_errors=True)
 
 
-def write_text(f, io):
-    """the text a file writes, through a StringIO or through a path (decoded with the declared encoding)"""
+def write_text(f, io, binary=False):
+    """the text (bytes in binary storage) a file writes, through a buffer or through a path
+    (decoded with the declared encoding)"""
     if not io:
-        from io import StringIO
+        from io import BytesIO, StringIO
 
-        buf = StringIO()
+        buf = BytesIO() if binary else StringIO()
         f.write(buf)
         return buf.getvalue()
     import os, shutil, tempfile
@@ -154,7 +155,8 @@ def write_text(f, io):
         path = os.path.join(d, "out.dat")
         f.write(path)
         with open(path, "rb") as fh:
-            return fh.read().decode(io["enc"])
+            raw = fh.read()
+        return raw if binary else raw.decode(io["enc"])
     finally:
         shutil.rmtree(d, ignore_errors=True)
 
@@ -242,11 +244,14 @@ def mk_block_classes(blocks, binary=False):
     return out
 
 
-def mk_block_file(blocks, binary=False, classes=None):
+def mk_block_file(blocks, binary=False, classes=None, io=None):
     from cfinterface.files.blockfile import BlockFile
 
     classes = classes if classes is not None else mk_block_classes(blocks, binary)
-    return derived(type("BF", (BlockFile,), {"BLOCKS": classes, "STORAGE": "BINARY" if binary else text_storage("TEXT", len(classes)), "__slots__": []}), len(classes)), classes
+    ns = {"BLOCKS": classes, "STORAGE": "BINARY" if binary else text_storage("TEXT", len(classes)), "__slots__": []}
+    if io:
+        ns["ENCODING"] = io["enc"]
+    return derived(type("BF", (BlockFile,), ns), len(classes)), classes
 
 
 def enc_belem(e, classes, binary):
@@ -327,11 +332,14 @@ def mk_section_classes(secs):
     return out
 
 
-def mk_section_file(secs, classes=None):
+def mk_section_file(secs, classes=None, io=None):
     from cfinterface.files.sectionfile import SectionFile
 
     classes = classes if classes is not None else mk_section_classes(secs)
-    return derived(type("SF", (SectionFile,), {"SECTIONS": classes, "STORAGE": text_storage("TEXT", len(classes)), "__slots__": []}), len(classes)), classes
+    ns = {"SECTIONS": classes, "STORAGE": text_storage("TEXT", len(classes)), "__slots__": []}
+    if io:
+        ns["ENCODING"] = io["enc"]
+    return derived(type("SF", (SectionFile,), ns), len(classes)), classes
 
 
 def enc_selem(e, classes):
